@@ -263,3 +263,66 @@ Proof.
   - intros Hf Hm. unfold file_open. rewrite Hf, Hm. reflexivity.
   - intros Hf. unfold file_open. rewrite Hf. reflexivity.
 Qed.
+
+(* ---- frame: a write session touches no other path -------------------------------------------- *)
+
+Lemma dfind_dset_other : forall d n x n', n' <> n -> dfind (dset d n x) n' = dfind d n'.
+Proof.
+  intros d n x n' Hne. unfold dfind, dset.
+  assert (Hk : (n =? n') = false) by (apply Z.eqb_neq; congruence).
+  destruct (existsb (fun e => fst e =? n) d).
+  - induction d as [|[k y] d IH]; [reflexivity|]. cbn [map fst].
+    destruct (k =? n) eqn:Ek.
+    + apply Z.eqb_eq in Ek. subst k. cbn [find fst]. rewrite Hk. exact IH.
+    + cbn [find fst]. destruct (k =? n'); [reflexivity|exact IH].
+  - induction d as [|[k y] d IH].
+    + cbn [app find fst]. rewrite Hk. reflexivity.
+    + cbn [app find fst]. destruct (k =? n'); [reflexivity|exact IH].
+Qed.
+
+Lemma fwrite_frame : forall d st data n',
+  n' <> s_name st ->
+  dfind (fst (fwrite d st data)) n' = dfind d n' /\ s_name (snd (fwrite d st data)) = s_name st.
+Proof.
+  intros d st data n' Hne. unfold fwrite.
+  destruct data as [|x data]; [split; reflexivity|].
+  cbn [fst snd s_name]. split; [apply dfind_dset_other; exact Hne|reflexivity].
+Qed.
+
+Lemma fold_frame : forall chunks d st n',
+  n' <> s_name st ->
+  dfind (fst (fold_left (fun (ds : disk * stream) ch => fwrite (fst ds) (snd ds) ch) chunks (d, st))) n' = dfind d n'.
+Proof.
+  induction chunks as [|ch chunks IH]; intros d st n' Hne; [reflexivity|].
+  cbn [fold_left fst snd].
+  destruct (fwrite_frame d st ch n' Hne) as [Hd Hn].
+  destruct (fwrite d st ch) as [d1 st1]. cbn [fst snd] in *.
+  rewrite IH; [exact Hd|rewrite Hn; exact Hne].
+Qed.
+
+Lemma file_open_frame : forall d n m d' st n',
+  file_open d n m = inr (d', Some st) -> n' <> n ->
+  s_name st = n /\ dfind d' n' = dfind d n'.
+Proof.
+  intros d n m d' st n' H Hne. unfold file_open in H.
+  destruct (negb _ && negb _); [discriminate|].
+  destruct (_ && _); [discriminate|].
+  destruct (fopen d n m) as [[d1 st1]|] eqn:F; [|discriminate].
+  inversion H; subst d1 st1. clear H.
+  unfold fopen in F.
+  destruct m.
+  all: try (destruct (dfind d n) as [[b|]|]; try discriminate; inversion F; subst; split; reflexivity).
+  all: try (inversion F; subst; split; [reflexivity|apply dfind_dset_other; exact Hne]).
+  all: destruct (dfind d n) as [[b|]|]; inversion F; subst; split; try reflexivity;
+       apply dfind_dset_other; exact Hne.
+Qed.
+
+Lemma write_session_frame : forall d n m chunks d' n',
+  write_session d n m chunks = Some d' -> n' <> n -> dfind d' n' = dfind d n'.
+Proof.
+  intros d n m chunks d' n' H Hne. unfold write_session in H.
+  destruct (file_open d n m) as [e|[d0 [st|]]] eqn:O; try discriminate.
+  inversion H; subst d'. clear H.
+  destruct (file_open_frame _ _ _ _ _ n' O Hne) as [Hn Hd].
+  rewrite fold_frame; [exact Hd|rewrite Hn; exact Hne].
+Qed.
